@@ -354,11 +354,12 @@ open Sbepp Sbepp.Schema
 
 /-! ### includes -/
 
-/-- a constant field whose value needs no file beyond the one of its own type: its type is not primitive; a
-    constant *type* carries a literal value (no `valueRef`); an enum-typed constant names an enumerator of
-    that very enum -/
+/-- a constant field whose value needs no file beyond those the generator records for it: always when
+    `value_ref_to_enumerator` records the enum (`Extracted.Templates.valueRefRecordsDependency`); otherwise its
+    type must not be primitive, a constant *type* must carry a literal value (no `valueRef`), and an enum-typed
+    constant must name an enumerator of that very enum -/
 def constFieldPlain (types : List Elem) (f : FieldDef) : Bool :=
-  !constField types f ||
+  Extracted.Templates.valueRefRecordsDependency || !constField types f ||
   (!isPrimitive f.type &&
    (match lookup types f.type with
     | some (.type t) => t.valueRef.isNone
@@ -385,34 +386,44 @@ theorem fieldNeeds_sub (types : List Elem) (f : FieldDef) (h : constFieldPlain t
   intro n hn
   unfold fieldNeeds at hn
   unfold fieldIncludes
-  rcases List.mem_append.mp hn with hn | hn
-  · exact hn
-  · by_cases hc : constField types f = true
-    · simp only [hc, if_true] at hn
-      simp only [constFieldPlain, hc, Bool.not_true, Bool.false_or, Bool.and_eq_true,
-        Bool.not_eq_true'] at h
-      obtain ⟨hprim, hm⟩ := h
-      simp only [hprim, Bool.false_eq_true, if_false]
-      cases hl : lookup types f.type with
-      | none => simp [hprim, hl] at hn
-      | some e =>
-        cases e with
-        | type t =>
-          simp only [hl, Option.isNone_iff_eq_none] at hm
-          have : constTypeNeeds types t = [] := by
-            unfold constTypeNeeds; simp [hm]
-          cases hv : f.valueRef <;> simp [hprim, hl, hv, this] at hn
-        | enum en enc off vs a =>
-          cases hv : f.valueRef with
-          | none => simp [hprim, hl, hv] at hn
-          | some r =>
-            simp only [hl, hv, beq_iff_eq] at hm
-            simp only [hprim, hl, hv, List.mem_singleton] at hn
-            simp [hn, hm]
-        | composite _ _ _ _ => cases hv : f.valueRef <;> simp [hprim, hl, hv] at hn
-        | ref _ _ _ _ => cases hv : f.valueRef <;> simp [hprim, hl, hv] at hn
-        | set _ _ _ _ _ => cases hv : f.valueRef <;> simp [hprim, hl, hv] at hn
-    · simp [hc] at hn
+  by_cases hflag : Extracted.Templates.valueRefRecordsDependency = true
+  · simp only [hflag, if_true]; exact hn
+  · rcases List.mem_append.mp hn with hn | hn
+    · exact List.mem_append_left _ hn
+    · apply List.mem_append_left
+      unfold valueRefNeeds at hn
+      by_cases hc : constField types f = true
+      · simp only [hc, if_true] at hn
+        have hflag' : Extracted.Templates.valueRefRecordsDependency = false := by simpa using hflag
+        simp only [constFieldPlain, hflag', hc, Bool.not_true, Bool.false_or, Bool.and_eq_true,
+          Bool.not_eq_true'] at h
+        obtain ⟨hprim, hm⟩ := h
+        simp only [hprim, Bool.false_eq_true, if_false]
+        cases hl : lookup types f.type with
+        | none => simp [hprim, hl] at hn
+        | some e =>
+          cases e with
+          | type t =>
+            simp only [hl, Option.isNone_iff_eq_none] at hm
+            have : constTypeNeeds types t = [] := by
+              unfold constTypeNeeds; simp [hm]
+            cases hv : f.valueRef <;> simp [hprim, hl, hv, this] at hn
+          | enum en enc off vs a =>
+            cases hv : f.valueRef with
+            | none => simp [hprim, hl, hv] at hn
+            | some r =>
+              simp only [hl, hv, beq_iff_eq] at hm
+              simp only [hprim, hl, hv, List.mem_singleton] at hn
+              simp [hn, hm]
+          | composite _ _ _ _ => cases hv : f.valueRef <;> simp [hprim, hl, hv] at hn
+          | ref _ _ _ _ => cases hv : f.valueRef <;> simp [hprim, hl, hv] at hn
+          | set _ _ _ _ _ => cases hv : f.valueRef <;> simp [hprim, hl, hv] at hn
+      · simp [hc] at hn
+
+/-- when `value_ref_to_enumerator` records its dependency, every level is plain -/
+theorem constFieldPlain_of_flag (types : List Elem) (f : FieldDef)
+    (h : Extracted.Templates.valueRefRecordsDependency = true) : constFieldPlain types f = true := by
+  simp [constFieldPlain, h]
 
 theorem fieldsNeeds_sub (types : List Elem) (fields : List FieldDef)
     (h : fields.all (constFieldPlain types) = true) :
@@ -1083,5 +1094,31 @@ theorem nodup_of_map {α β} (f : α → β) (xs : List α) (h : (xs.map f).Nodu
   | cons x xs ih =>
     simp only [List.map_cons, List.nodup_cons] at h
     exact List.nodup_cons.mpr ⟨fun hx => h.1 (List.mem_map.mpr ⟨x, hx, rfl⟩), ih h.2⟩
+
+end Sbepp.Gen.Scope
+
+namespace Sbepp.Gen.Scope
+open Sbepp Sbepp.Schema
+
+mutual
+  theorem groupPlain_of_flag (types : List Elem) (g : GroupDef)
+      (h : Extracted.Templates.valueRefRecordsDependency = true) : groupPlain types g = true := by
+    match g with
+    | .mk _ _ _ _ gf gg _ _ =>
+      simp only [groupPlain, Bool.and_eq_true, List.all_eq_true]
+      exact ⟨fun f _ => constFieldPlain_of_flag types f h, groupsPlain_of_flag types gg h⟩
+  theorem groupsPlain_of_flag (types : List Elem) (gs : List GroupDef)
+      (h : Extracted.Templates.valueRefRecordsDependency = true) : groupsPlain types gs = true := by
+    match gs with
+    | [] => rfl
+    | g :: gs' =>
+      simp only [groupsPlain, Bool.and_eq_true]
+      exact ⟨groupPlain_of_flag types g h, groupsPlain_of_flag types gs' h⟩
+end
+
+theorem levelPlain_of_flag (types : List Elem) (fields : List FieldDef) (groups : List GroupDef)
+    (h : Extracted.Templates.valueRefRecordsDependency = true) : levelPlain types fields groups = true := by
+  simp only [levelPlain, Bool.and_eq_true, List.all_eq_true]
+  exact ⟨fun f _ => constFieldPlain_of_flag types f h, groupsPlain_of_flag types groups h⟩
 
 end Sbepp.Gen.Scope
